@@ -592,6 +592,19 @@ func (r *Run) compactKeyDoneLocked(gid int64) {
 	if r.c.Cfg.Managed {
 		return
 	}
+	// keys a DropPrefix/DropAll touched: whether a commit that raced with the drop was
+	// wiped or survived is legitimately open (C29 decides those), so the model cannot say
+	// which older versions exist
+	for _, d := range r.drops {
+		if d.all {
+			return
+		}
+		for _, p := range d.prefixes {
+			if strings.HasPrefix(st.key, string(p)) {
+				return
+			}
+		}
+	}
 	inThis := map[uint64]bool{}
 	for _, e := range st.ents {
 		inThis[e.ver] = true
